@@ -10,6 +10,7 @@ from typing import Any
 from vp import core
 
 from props import c04_ir as I
+from props import c05_agg as A
 from props import c05_gen as G
 from props import c05_perturb as P
 from props import c05_rt as R
@@ -18,7 +19,7 @@ META = {
     "title": "Custom assembly formats round-trip for every registered operation",
     "category": "proof",
     "design_ref": "DESIGN.md §5 C05",
-    "lean_modules": ["XdslProofs.C05"],
+    "lean_modules": ["XdslProofs.C05", "XdslProofs.C05Generic"],
     "text": (
         "Lean theorems on the declarative-format interpreter (XdslModel/DeclFormat.lean = FormatProgram.print/"
         "parse and the directive classes of xdsl/irdl/declarative_assembly_format.py, at the level of the token "
@@ -27,12 +28,25 @@ META = {
         "verifies and is consistent with the optional groups, and every continuation of the token stream that the "
         "format's trailing optional directives cannot mistake for their own, parsing the printed tokens consumes "
         "exactly those tokens and rebuilds an instance equal to the original in operands, operand/result types, "
-        "regions, successors and — modulo declared defaults — properties and attributes (decl_roundtrip; without "
-        "optional groups decl_roundtrip_partial).  The model is tied to the real code on run-time generated IRDL "
+        "regions, successors and — modulo declared defaults — properties and attributes (decl_roundtrip; with the "
+        "format compiler's own binding checks accD as hypothesis decl_roundtrip_acc; without optional groups "
+        "decl_roundtrip_partial).  `operands`, `type(operands)`, `type(results)` and `functional-type(…)` (incl. the "
+        "parenthesised single function-typed result, variadic/optional segments) are inside the theorem (wfA: the "
+        "flat list determines the segments).  The generic form of the same abstract instance is modelled on the "
+        "token skeleton of C04 (XdslModel/DeclGeneric.lean: printGeneric = Skeleton.pr of the flattened instance "
+        "with its segment-size entries, parseGeneric = Skeleton.parseT followed by the accessors' view instOf) and "
+        "decl_generic_agree ties the two printer/parser pairs: custom text → instance ≡ generic text → instance "
+        "modulo declared defaults, segment sizes determined by the format (decl_generic_agree_segments).  The model "
+        "is tied to the real code on run-time generated IRDL "
         "operation classes with generated assembly_format strings × random instances: printed text = rendered model "
         "tokens, parsed instance = model instance, edited token streams accepted by parseD are accepted with the "
-        "same instance by FormatProgram.parse, and the property itself (custom print → parse in a fresh Context "
-        "≡ generic print → parse, own canonical serialisation) is demanded directly on every wfD format.  The same "
+        "same instance by FormatProgram.parse, the generic token stream the model predicts = the real generic "
+        "printer's (lexed and collapsed by harness/props/c04_sk.py), the instance the model reads off the generic "
+        "text = what the real generic parser + the operation's accessors give, the format compiler's binding "
+        "checks ⇔ accD on accepted formats and on deliberately broken variants it refuses, "
+        "and the property itself (custom print → parse in a fresh Context "
+        "≡ generic print → parse, own canonical serialisation) is demanded directly on every format in the theorem's "
+        "class (wfD ∧ wfA).  The same "
         "direct oracle runs over every operation of every parseable+verifying chunk of tests/**/*.mlir with all "
         "dialects registered (custom form incl. hand-written print/parse; every file, every chunk, in every tier), "
         "over variants of corpus operations built through the generic form (one optional/default-valued property "
@@ -48,8 +62,12 @@ META = {
         "PARTIAL claim.  Proved: the directive core (keyword/punctuation literals, operand/result-type/region/"
         "successor variables in single/optional/variadic flavours, type($x), attribute/property variables with "
         "default elision, unit attributes, attr-dict with reserved names / properties / defaults, optional groups "
-        "with anchor and else branch; no nested groups).  Executable in the model but not covered by the theorem: "
-        "`operands`, `type(operands)`, `type(results)`, `functional-type` (correspondence + oracle only).  MODELLED "
+        "with anchor and else branch; no nested groups; `operands`, `type(operands)`, `type(results)`, "
+        "`functional-type(…)` at top level for definitions with at most one optional/variadic operand resp. result "
+        "definition) and the agreement of the custom with the generic form of one instance.  Outside the theorem: the "
+        "aggregate directives inside optional groups, the SameVariadic…Size options (memref.extract_strided_metadata "
+        "is the one registered format), AttrSized{Region,Successor}Segments; the symbol-table side of the generic "
+        "parser is C04's (values and blocks are compared by their printed names).  MODELLED "
         "BY NOTHING: the hand-written print/parse overrides in xdsl/dialects/*.py and custom directives — they are "
         "covered only by the corpus/pass oracle; the lexical payload syntax of types and attributes (one opaque "
         "token in the model; C06); type inference through constraint variables; whitespace directives; nested "
@@ -69,9 +87,13 @@ META = {
         "hand-written model, the canonical serialiser harness/props/c04_ir.py, the encoder harness/props/c05_gen.py."
     ),
     "rule": (
-        "generated: a case = (op definition, format, instance); evaluated = built+verified cases; non-trivial = "
-        "wfD holds and the format has ≥1 optional group or variadic/optional variable or default-valued/optional "
-        "attribute, distinct by (format string, printed text).  catalogue: fixed minimal formats incl. the minimal "
+        "generated: a case = (op definition, format, instance); evaluated = built+verified cases (+1 per case that "
+        "gets the generic-form leg); non-trivial = "
+        "wfD and wfA hold and the format has ≥1 optional group or variadic/optional variable or default-valued/optional "
+        "attribute, distinct by (format string, printed text); a generic-form case whose custom/generic agreement "
+        "was checked counts once more.  acceptance: evaluated = formats with a verdict of the format compiler that "
+        "is 'accepted' or one of its binding errors; non-trivial = refused variants, distinct by (format, error).  "
+        "catalogue: fixed minimal formats incl. the minimal "
         "failing inputs of every repaired defect × all small instances.  corpus/pass: evaluated = verified chunks; "
         "non-trivial = chunk contains ≥1 operation printed with a custom syntax, distinct by (file, chunk[, pass]).  "
         "perturb/funclike: evaluated = variants that verify; all are non-trivial, distinct by (op class, file, chunk, "
@@ -79,6 +101,7 @@ META = {
     ),
     "trusted_base": [
         "hand-written Lean model XdslModel/DeclFormat.lean (fixed FormatProgram semantics at token level), tied by correspondence",
+        "hand-written Lean model XdslModel/DeclGeneric.lean (generic form of one instance on the C04 skeleton, accessors), tied by correspondence; harness/props/c05_agg.py (spec encoder, token rendering)",
         "canonical IR serialiser harness/props/c04_ir.py; round-trip/reduction harness/props/c05_rt.py; generator+encoder harness/props/c05_gen.py",
     ],
     "assumptions": [
@@ -166,6 +189,24 @@ CATALOGUE: list[tuple[str, dict[str, Any]]] = [
     ("typed-optional-f32-first", _spec({"attrs": [["p", "attr", "f32attr", "opt", None]]}, [_kw("p"), _grp(0, [_a("p"), _kw("z")], [_kw("none")]), _ADK])),
     ("typed-optional-then-operand", _spec({"attrs": [["p", "prop", "i64", "opt", None]], "operands": [["o", "opt", "i32"]]},
                                           [_kw("p"), _a("p"), _o("o"), _ADK])),
+    # aggregate directives (inside decl_roundtrip since the C05G extension)
+    ("operands-functype", _spec({"operands": [["a", "single", "any"], ["b", "var", "any"]], "results": [["r", "single", "any"]]},
+                                [{"k": "operands"}, _AD, _p(":"), {"k": "functype", "ins": ["operands"], "outs": ["results"]}])),
+    ("type-operands-results", _spec({"operands": [["a", "single", "any"], ["b", "opt", "any"]], "results": [["r", "var", "any"]]},
+                                    [_o("a"), _grp(1, [_kw("and"), _o("b")]), _AD, _p(":"), {"k": "type_operands"}, _p("->"), {"k": "type_results"}])),
+    ("functype-of-variables", _spec({"operands": [["a", "var", "any"]], "results": [["r", "opt", "any"]]},
+                                    [_o("a"), _AD, _p(":"), {"k": "functype", "ins": ["operand", "a"], "outs": ["result", "r"]}])),
+    ("functype-single-result-var", _spec({"operands": [["a", "opt", "any"]], "results": [["r", "single", "any"]]},
+                                         [_kw("x"), _o("a"), _AD, _p(":"), {"k": "functype", "ins": ["operands"], "outs": ["result", "r"]}])),
+    ("operands-fixed-types", _spec({"operands": [["a", "var", "i32"], ["b", "single", "index"]]}, [_kw("x"), {"k": "operands"}, _AD])),
+    # fix 8: `operands` / `results` on a definition that stores its segment sizes (one variadic definition)
+    ("operands-attr-sized", _spec({"operands": [["a", "var", "any"], ["b", "single", "any"]]},
+                                  [{"k": "operands"}, _AD, _p(":"), {"k": "type_operands"}], {"force_seg": True})),
+    ("results-attr-sized", _spec({"operands": [["a", "single", "any"]], "results": [["r", "opt", "any"], ["q", "single", "any"]]},
+                                 [_o("a"), _AD, _p(":"), {"k": "functype", "ins": ["operands"], "outs": ["results"]}], {"force_seg": True})),
+    # outside the class: the same-size option is not modelled (wfA = false)
+    ("operands-same-size", _spec({"operands": [["a", "var", "any"], ["b", "var", "any"]]},
+                                 [{"k": "operands"}, _AD, _p(":"), {"k": "type_operands"}], {"same_size": True})),
     # assorted well-formed shapes
     ("optional-operand-group-else", _spec({"operands": [["o", "opt", "any"]]}, [_grp(0, [_o("o"), _p(":"), _to("o")], [_kw("none")]), _AD])),
     ("two-variadics-segments", _spec({"operands": [["a", "var", "any"], ["b", "var", "any"]]},
@@ -248,6 +289,11 @@ def classify_generated(spec: dict[str, Any], res: G.CaseResult) -> tuple[str, st
     fmt = G.render_fmt(spec["fmt"])
     stage = rt.stage if rt is not None else "?"
     groups = [d for d in spec["fmt"] if d["k"] == "group"]
+    if stage == "parse" and rt is not None and "AssertionError" in rt.detail and any(
+            d["k"] in ("operands", "type_operands", "type_results", "functype") for d in spec["fmt"]):
+        return (SITE_FP + ".OperandsOrResultDirective._set_using_variadic_index",
+                "operands/results directive on a definition with AttrSized segments: AssertionError while parsing",
+                f"`{fmt}`: the flat list cannot be split through the attribute-based accessors: {rt.detail}")
     if res.typed_optional and stage == "parse":
         return (SITE_FP + ".UniqueBaseAttributeVariable.parse_attr",
                 "optional attribute variable with a unique base or fixed type is parsed unconditionally",
@@ -290,11 +336,13 @@ class GenBatch:
         self.ctx, self.family = ctx, family
         self.cases: list[tuple[dict[str, Any], dict[str, Any], G.CaseResult]] = []
         self.malformed_budget = 0
+        self.generic_budget = 0   # how many further cases get the generic-form leg
 
     def add(self, spec, inst, cls=None) -> G.CaseResult | None:
         ctx = self.ctx
+        want_generic = self.generic_budget > 0
         try:
-            r = G.run_case(spec, inst, cls)
+            r = G.run_case(spec, inst, cls, with_generic=want_generic)
         except G.Rejected:
             ctx.count(f"{self.family}.rejected")
             return None
@@ -305,6 +353,10 @@ class GenBatch:
         if not r.modelled:
             ctx.count(f"{self.family}.unmodelled")
             return r
+        if r.generic is not None:
+            self.generic_budget -= 1
+        elif r.generic_skip:
+            ctx.count(f"{self.family}.generic.skipped({r.generic_skip})")
         self.cases.append((spec, inst, r))
         return r
 
@@ -314,18 +366,18 @@ class GenBatch:
             return
         lines = ["reset"]
         for _, _, r in self.cases:
-            lines += r.lines + ["fragment"]
-        out = ctx.model("decl_format", lines)
+            lines += r.lines + ["fragment", "acc", "wfa"] + (r.generic.lines if r.generic is not None else [])
+        out = ctx.model("decl_generic", lines)
         ctx.count(f"{self.family}.model_lines", len(lines))
         pos = 1
         malformed = []
         for spec, inst, r in self.cases:
-            n = len(r.lines) + 1
+            n = len(r.lines) + 3 + (len(r.generic.lines) if r.generic is not None else 0)
             o = out[pos:pos + n]
             pos += n
             self.judge(spec, inst, r, o)
             d = spec["defs"]
-            if (self.malformed_budget > 0 and o[:3] == ["ok", "ok", "ok"] and o[3] == "true" and o[6] == "true"
+            if (self.malformed_budget > 0 and o[:3] == ["ok", "ok", "ok"] and o[3] == "true" and o[6] == "true" and o[8] == "true"
                     and not d["results"] and not d["regions"] and not d["succs"] and r.rt.ok
                     and not any(t == "T" for _, _, t in d["operands"]) and not _has_value_attr_directive(spec)):
                 toks = [] if o[4] == "-" else o[4].split(" ")
@@ -371,11 +423,33 @@ class GenBatch:
         if o[0] != "ok" or o[1] != "ok" or o[2] != "ok":
             ctx.mismatch("correspondence:C05/decl_format.encoding", case, r.lines[:3], o[:3], "the Lean driver refused the encoded case")
             return
-        wf, ptoks, rtm, frag = o[3], o[4], o[5], o[6]
+        wf, ptoks, rtm, frag, acc, wfa = o[3], o[4], o[5], o[6], o[7], o[8]
         uses_T = any(t == "T" for _, _, t in spec["defs"]["operands"] + spec["defs"]["results"])
+        same_size = bool(spec.get("opts", {}).get("same_size"))
         ctx.count(f"{fam}.wf={wf}")
-        if frag == "true":
-            ctx.count(f"{fam}.in_theorem_fragment")
+        words = r.lines[1].split(" ")
+        aggs = sorted({{"oa": "operands", "ota": "type(operands)", "rta": "type(results)"}.get(w, "functional-type")
+                       for w in words if w in ("oa", "ota", "rta") or w.startswith("ft:")})
+        # the class of the theorem decl_roundtrip: wfD (implies fragD) and wfA
+        inclass = wf == "true" and wfa == "true"
+        if inclass:
+            ctx.count(f"{fam}.in_theorem_class")
+            for a in aggs:
+                ctx.count(f"{fam}.in_theorem_class.with[{a}]")
+            if len(aggs) == 0:
+                ctx.count(f"{fam}.in_theorem_class.without_aggregates")
+        if wf == "true" and frag != "true":
+            ctx.mismatch("correspondence:C05/decl_format.fragD", case, "wfD", "fragD = false",
+                         "wfD holds but an optional group holds an aggregate directive (contradicts fragD_of_wfD)")
+        # (0) the binding checks of the format compiler: the format was compiled, so accD must hold (type
+        # inference through a constraint variable and the same-size options are outside the model)
+        if not uses_T and not same_size:
+            ctx.count(f"{fam}.acc={acc}")
+            if acc != "true":
+                ctx.mismatch("correspondence:C05/decl_format.accD", case, "format compiler accepts", "accD = false",
+                             "the format compiler accepts a format that accD (its binding checks in the model) refuses")
+            elif wfa != "true":
+                ctx.mismatch("correspondence:C05/decl_format.wfA", case, "accD", "wfA = false", "contradicts wfA_of_accD")
         # (1) printed token stream
         try:
             mtext = G.strip_ws(G.render_tokens(ptoks, r.tables, r.prog))
@@ -385,7 +459,7 @@ class GenBatch:
             ctx.mismatch("correspondence:C05/decl_format.print", case, r.impl_print, mtext + "   tokens: " + ptoks,
                          "text printed by FormatProgram.print differs from the rendered tokens of printD")
         rt = r.rt
-        if wf == "true":
+        if inclass:
             if nontrivial_spec(spec):
                 ctx.nt((fam, r.fmt, r.impl_print))
             # (2) the property itself, on a format the theorem's side conditions accept
@@ -395,12 +469,64 @@ class GenBatch:
             if not uses_T:
                 if not rtm.startswith("some "):
                     ctx.mismatch("correspondence:C05/decl_format.roundtrip", case, r.impl_parse, rtm,
-                                 "wfD holds but the model does not round-trip (contradicts decl_roundtrip or the instance is not consistent)")
+                                 "wfD and wfA hold but the model does not round-trip (contradicts decl_roundtrip or the instance is not consistent)")
                 elif rt.ok and r.impl_parse is not None and rtm[5:] != r.impl_parse:
                     ctx.mismatch("correspondence:C05/decl_format.parse", case, r.impl_parse, rtm[5:],
                                  "instance parsed back by FormatProgram.parse differs from parseD")
         else:
             ctx.count(f"{fam}.nonwf.real_{'ok' if rt.ok else 'fails'}")
+        # (4) the generic form: predicted token stream, instance read off the generic text, agreement
+        if r.generic is not None and len(o) >= 12:
+            self.judge_generic(spec, inst, r, o[9:12], inclass, rtm, uses_T)
+
+    def judge_generic(self, spec, inst, r: G.CaseResult, o: list[str], inclass: bool, rtm: str, uses_T: bool) -> None:
+        ctx, fam = self.ctx, self.family
+        g = r.generic
+        case = {"family": "generic", "spec": spec, "inst": inst}
+        ctx.ev()
+        if o[0] != "ok":
+            ctx.mismatch("correspondence:C05/decl_generic.encoding", case, g.lines[0], o[0], "the Lean driver refused the generic configuration")
+            return
+        if g.problem:
+            ctx.count(f"{fam}.generic.ungroupable")
+            return
+        try:
+            mt = A.render_model_generic(o[1], g)
+        except Exception as e:  # noqa: BLE001
+            mt = [f"<cannot render {core.exc_name(e)}: {e}>"]
+        if mt != g.real_toks:
+            i = next((k for k, (x, y) in enumerate(zip(mt, g.real_toks)) if x != y), min(len(mt), len(g.real_toks)))
+            ctx.count(f"{fam}.generic.print_differs")
+            ctx.mismatch("correspondence:C05/decl_generic.print", {**case, "token": i},
+                         g.real_toks[max(0, i - 10):i + 6], mt[max(0, i - 10):i + 6],
+                         "token stream of the real generic printer differs from printGeneric (" + g.text.strip()[:300] + ")")
+            return
+        ctx.count(f"{fam}.generic.print_equal")
+        ctx.count(f"{fam}.generic.tokens", len(mt))
+        real = A.real_generic_parse(r.module, r.cls, r.tables, r.nvals, r.nblocks)
+        if real is None:
+            ctx.count(f"{fam}.generic.real_parse_error(C04)")
+            return
+        if not o[2].startswith("some "):
+            ctx.mismatch("correspondence:C05/decl_generic.parse", case, real, o[2],
+                         "parseGeneric rejects the generic text of an instance the real generic parser reads")
+            return
+        if o[2][5:] != real:
+            ctx.mismatch("correspondence:C05/decl_generic.parse", case, real, o[2][5:],
+                         "instance read off the generic text (parseGeneric) differs from the real generic parser + accessors")
+            return
+        ctx.count(f"{fam}.generic.parse_equal")
+        # custom → instance  =  generic → instance (decl_generic_agree), both sides of the model and both real ones
+        if inclass and not uses_T:
+            ctx.count(f"{fam}.generic.agree_checked")
+            ctx.nt((fam, "generic", r.fmt, r.impl_print))
+            if rtm.startswith("some ") and rtm[5:] != o[2][5:]:
+                ctx.mismatch("correspondence:C05/decl_generic.agree", case, rtm[5:], o[2][5:],
+                             "model: custom → instance differs from generic → instance on a wfD format (contradicts decl_generic_agree)")
+            if r.rt.ok and r.impl_parse is not None:
+                # (the property's own comparison custom vs generic is R.roundtrip on canonical forms; this is the
+                # accessors' view of the two real parses)
+                ctx.count(f"{fam}.generic.real_custom_vs_generic_{'equal' if r.impl_parse == real else 'differ'}")
 
     def report(self, spec, inst, r: G.CaseResult) -> None:
         ctx = self.ctx
@@ -432,10 +558,10 @@ def judged_failure(ctx: core.Ctx, spec, inst) -> G.CaseResult | None:
         return None
     if r.status != "ok" or r.rt is None or r.rt.ok or not r.modelled:
         return None
-    o = ctx.model("decl_format", ["reset"] + r.lines)[1:]
+    o = ctx.model("decl_format", ["reset"] + r.lines + ["wfa"])[1:]
     if o[0] != "ok" or o[1] != "ok" or o[2] != "ok":
         return None
-    if o[3] == "true":
+    if o[3] == "true" and o[6] == "true":
         return r
     return None
 
@@ -523,6 +649,7 @@ def shrink_generated(ctx: core.Ctx, spec, inst, r: G.CaseResult, max_steps: int 
 
 def run_catalogue(ctx: core.Ctx) -> None:
     b = GenBatch(ctx, "catalogue")
+    b.generic_budget = 10 ** 6
     for name, spec in CATALOGUE:
         try:
             cls = G.make_op(spec)
@@ -535,9 +662,10 @@ def run_catalogue(ctx: core.Ctx) -> None:
     b.finish()
 
 
-def run_generated(ctx: core.Ctx, nspecs: int, per_spec: int, reserve: float) -> None:
+def run_generated(ctx: core.Ctx, nspecs: int, per_spec: int, reserve: float, generic: int = 0) -> None:
     b = GenBatch(ctx, "generated")
     b.malformed_budget = nspecs // 2
+    b.generic_budget = generic
     for k in range(nspecs):
         if ctx.time_left() < reserve:
             ctx.count("generated.skipped_for_time", nspecs - k)
@@ -560,10 +688,77 @@ def run_generated(ctx: core.Ctx, nspecs: int, per_spec: int, reserve: float) -> 
                 ctx.sample({"family": "generated", "format": r.fmt, "printed": G.op_text(r.rt.custom).strip()[:200]})
         if len(b.cases) >= 4000:
             b.finish()
-            left = b.malformed_budget
+            left, gleft = b.malformed_budget, b.generic_budget
             b = GenBatch(ctx, "generated")
-            b.malformed_budget = left
+            b.malformed_budget, b.generic_budget = left, gleft
     b.finish()
+
+
+# ---------------------------------------------------------------------------------------------
+# the binding checks of the format compiler  ⇔  accD   (accepted formats AND refused variants)
+# ---------------------------------------------------------------------------------------------
+
+def run_acceptance(ctx: core.Ctx, nspecs: int, reserve: float) -> None:
+    """formats are encoded from the SPEC (not from a compiled program), so that formats the compiler
+    refuses reach the model: compiler accepts ⇒ accD; compiler refuses with one of its binding errors ⇒
+    ¬accD.  Specs without type inference through a constraint variable and without same-size options."""
+    items = []
+    for k in range(nspecs):
+        if ctx.time_left() < reserve:
+            ctx.count("acceptance.skipped_for_time", nspecs - k)
+            break
+        spec = G.random_spec(ctx.rng, model_fragment=True, risky=0.05)
+        variants = [(spec, "original")]
+        for _ in range(2):
+            v = A.break_spec(ctx.rng, spec)
+            if v is not None:
+                variants.append(v)
+        for sp, how in variants:
+            try:
+                cls = G.make_op(sp, with_format=False)
+            except G.Rejected:
+                ctx.count("acceptance.definition_rejected")
+                continue
+            except Exception:  # noqa: BLE001
+                ctx.count("acceptance.definition_error")
+                continue
+            fmt = G.render_fmt(sp["fmt"])
+            verdict, msg = A.compile_verdict(cls, fmt)
+            T = G.Tables()
+            try:
+                fl = A.encode_fmt_spec(sp, cls, T)
+                if verdict == "ok":
+                    fl2 = G.encode_fmt(G.FormatProgramOf(cls, fmt), T)
+                    if not A.same_encoding(fl, fl2):
+                        raise core.InfraError(f"C05: spec encoder and program encoder disagree on `{fmt}`: {fl} / {fl2}")
+                dl = G.defs_line(cls, T) + " " + G.func_types_field(T)
+            except G.Unmodelled:
+                ctx.count("acceptance.unmodelled")
+                continue
+            ctx.count(f"acceptance.{how}.{verdict}")
+            if verdict == "other":
+                ctx.count("acceptance.other_error(" + re.sub(r"'[^']*'", "'…'", msg)[:50] + ")")
+                continue
+            items.append((sp, how, verdict, msg, [dl, fl, "acc"]))
+    if not items:
+        return
+    lines = ["reset"]
+    for it in items:
+        lines += it[4]
+    out = ctx.model("decl_generic", lines)
+    for k, (sp, how, verdict, msg, ls) in enumerate(items):
+        o = out[1 + 3 * k: 4 + 3 * k]
+        ctx.ev()
+        case = {"family": "acceptance", "spec": sp, "variant": how}
+        if o[0] != "ok" or o[1] != "ok":
+            ctx.mismatch("correspondence:C05/decl_format.encoding", case, ls[:2], o[:2], "the Lean driver refused the encoded format")
+            continue
+        ctx.count(f"acceptance.compiler_{verdict}.accD={o[2]}")
+        if (verdict == "ok") != (o[2] == "true"):
+            ctx.mismatch("correspondence:C05/decl_format.accD", case, f"format compiler: {verdict} {msg}", f"accD = {o[2]}",
+                         f"`{G.render_fmt(sp['fmt'])}`: the binding checks of the format compiler and accD disagree")
+        elif verdict == "binding":
+            ctx.nt(("acceptance", G.render_fmt(sp["fmt"]), msg))
 
 
 # ---------------------------------------------------------------------------------------------
@@ -600,20 +795,37 @@ def run_registry(ctx: core.Ctx) -> None:
             except Exception as e:  # noqa: BLE001
                 ctx.count("registry.encode_error." + core.exc_name(e))
                 continue
+            try:
+                dl = G.defs_line(op, T) + " " + G.func_types_field(T)
+            except Exception as e:  # noqa: BLE001
+                ctx.count("registry.defs_error." + core.exc_name(e))
+                continue
             names.append(op.name)
-            lines += [fl, "fragment", "why p:}", "why p:} v s a"]
-    out = ctx.model("decl_format", lines)
+            lines += [dl, fl, "fragment", "why p:}", "why p:} v s a", "wfa", "acc"]
+    out = ctx.model("decl_generic", lines)
     not_wf = []
     for k, n in enumerate(names):
-        o = out[1 + 4 * k: 1 + 4 * k + 4]
-        if o[0] != "ok":
+        o = out[1 + 7 * k: 1 + 7 * k + 7]
+        if o[0] != "ok" or o[1] != "ok":
             ctx.count("registry.model_refuses_encoding")
             continue
-        ctx.count(f"registry.fragment={o[1]}")
-        ctx.count("registry.wfD(follow=})=" + ("true" if o[2] == "ok" else "false"))
-        ctx.count("registry.wfD(follow=any)=" + ("true" if o[3] == "ok" else "false"))
-        if o[2] != "ok":
-            not_wf.append(f"{n}: {o[2]}")
+        ctx.count(f"registry.fragment={o[2]}")
+        ctx.count("registry.wfD(follow=})=" + ("true" if o[3] == "ok" else "false"))
+        ctx.count("registry.wfD(follow=any)=" + ("true" if o[4] == "ok" else "false"))
+        ctx.count(f"registry.wfA={o[5]}")
+        ctx.count(f"registry.accD={o[6]}")
+        words = fl.split(" ")
+        has_agg = any(w in ("oa", "ota", "rta") or w.startswith("ft:") for w in words)
+        if has_agg:
+            ctx.count("registry.with_aggregate_directive")
+        if o[3] == "ok" and o[5] == "true":
+            ctx.count("registry.in_theorem_class(follow=})")
+            if has_agg:
+                ctx.count("registry.in_theorem_class(follow=}).with_aggregate_directive")
+        if o[3] != "ok":
+            not_wf.append(f"{n}: {o[3]}")
+        elif o[5] != "true":
+            not_wf.append(f"{n}: wfA (aggregate directive with several variadic definitions: same-size option)")
     ctx.extra["registry_formats_rejected_by_wfD"] = not_wf[:60]
 
 
@@ -718,7 +930,8 @@ def run(ctx: core.Ctx) -> None:
     timed("text_catalogue", P.run_text_catalogue, ctx, check_module)
     ix = P.Index()
     if ctx.tier == "quick":
-        timed("generated", run_generated, ctx, 1000, 4, reserve=90)
+        timed("acceptance", run_acceptance, ctx, 250, reserve=100)
+        timed("generated", run_generated, ctx, 1000, 4, reserve=90, generic=1500)
         timed("corpus", run_corpus, ctx, [], 1, reserve=30, ix=ix)
         timed("funclike", P.run_funclike, ctx, ix, check_module, per_class=2, reserve=12)
         timed("perturb", P.run_perturb, ctx, ix, check_module, per_class=2, max_module_ops=40, reserve=3)
@@ -726,7 +939,8 @@ def run(ctx: core.Ctx) -> None:
         timed("corpus", run_corpus, ctx, c04.PASSES_THOROUGH, 1, reserve=500, ix=ix)
         timed("funclike", P.run_funclike, ctx, ix, check_module, per_class=8, reserve=420)
         timed("perturb", P.run_perturb, ctx, ix, check_module, per_class=6, max_module_ops=400, reserve=300)
-        timed("generated", run_generated, ctx, 40000, 5, reserve=20)
+        timed("acceptance", run_acceptance, ctx, 4000, reserve=200)
+        timed("generated", run_generated, ctx, 40000, 5, reserve=20, generic=40000)
     ctx.extra["timing_s"] = timing
     ctx.exhaustive = True
     ctx.extra["exhaustive_scope"] = (
@@ -765,6 +979,42 @@ def replay(ctx: core.Ctx, body: dict) -> int:
         print("real parser:", real)
         print("model:      ", o[-1])
         bad = o[-1].startswith("some ") and real != o[-1][5:]
+        print("correspondence", "BROKEN" if bad else "holds", "on this case")
+        return 1 if bad else 0
+    elif fam == "generic":
+        spec, inst = case["spec"], case["inst"]
+        print("format:", G.render_fmt(spec["fmt"]))
+        r = G.run_case(spec, inst, with_generic=True)
+        if r.generic is None:
+            print("generic leg not applicable:", r.status, r.generic_skip)
+            return 0
+        g = r.generic
+        o = ctx.model("decl_generic", ["reset"] + r.lines + g.lines)[1:]
+        mt = A.render_model_generic(o[7], g)
+        real = A.real_generic_parse(r.module, r.cls, r.tables, r.nvals, r.nblocks)
+        print("generic text:      ", g.text.strip()[:400])
+        print("real tokens:       ", " ".join(g.real_toks))
+        print("printGeneric:      ", " ".join(mt), "   (driver tokens:", o[7], ")")
+        print("real generic parse:", real)
+        print("parseGeneric:      ", o[8])
+        print("custom (parseD):   ", o[5])
+        bad = mt != g.real_toks or (real is not None and o[8] != "some " + real)
+        print("correspondence", "BROKEN" if bad else "holds", "on this case")
+        return 1 if bad else 0
+    elif fam == "acceptance":
+        spec = case["spec"]
+        fmt = G.render_fmt(spec["fmt"])
+        print("format:", fmt)
+        print("definitions:", json.dumps(spec["defs"]), json.dumps(spec.get("opts", {})))
+        cls = G.make_op(spec, with_format=False)
+        verdict, msg = A.compile_verdict(cls, fmt)
+        T = G.Tables()
+        fl = A.encode_fmt_spec(spec, cls, T)
+        dl = G.defs_line(cls, T) + " " + G.func_types_field(T)
+        o = ctx.model("decl_generic", ["reset", dl, fl, "acc"])
+        print("format compiler:", verdict, msg)
+        print("model:", dl, "|", fl, "=> accD =", o[-1])
+        bad = verdict != "other" and ((verdict == "ok") != (o[-1] == "true"))
         print("correspondence", "BROKEN" if bad else "holds", "on this case")
         return 1 if bad else 0
     elif fam == "lost-chunk":
